@@ -8,9 +8,19 @@ from krrood.entity_query_language.predicate import Symbol
 
 
 @dataclass(eq=False)
+class MCore(Symbol):
+    k: int = 0
+    name: str = ""
+
+    def __repr__(self):
+        return self.name
+
+
+@dataclass(eq=False)
 class MPart(Symbol):
     k: int = 0
     name: str = ""
+    core: MCore = None
 
     def __repr__(self):
         return self.name
